@@ -1,8 +1,13 @@
 // C02 - schedule() / async() / AsyncTask: executed exactly once, result delivered, no use of released memory.
 // One binary per tasking backend; ASan + UBSan + LSan.
+#ifdef C02_FORKED
+#define PBT_NO_WATCHDOG  // these binaries fork a child per case
+#endif
 #include "common/pbt.h"
 #include "common/tracked.h"
+#ifdef C02_FORKED
 #include "common/forked.h"
+#endif
 
 #include "rkcommon/tasking/AsyncTask.h"
 #include "rkcommon/tasking/async.h"
@@ -291,10 +296,12 @@ struct WakeCase
   auto tie() { return std::tie(threads, rounds, maxDelayUs, viaAsync); }
 };
 static void wakeup_rounds_body(const WakeCase &c, pbt::Ctx &ctx);
+#ifdef C02_FORKED
 static void wakeup_rounds(const WakeCase &c, pbt::Ctx &ctx)
 {
   pbt::forked(ctx, [&](pbt::Ctx &cc) { wakeup_rounds_body(c, cc); });
 }
+#endif
 static void wakeup_rounds_body(const WakeCase &c, pbt::Ctx &ctx)
 {
   const int threads = std::max(1, c.threads);
@@ -353,6 +360,7 @@ struct Hist
   std::vector<Case> steps;
   auto tie() { return std::tie(steps); }
 };
+#ifdef C02_FORKED
 static void run_history(const Hist &h, pbt::Ctx &ctx)
 {
   pbt::forked(ctx, [&](pbt::Ctx &cc) {
@@ -362,6 +370,7 @@ static void run_history(const Hist &h, pbt::Ctx &ctx)
       cc.label("history>=2-steps");
   });
 }
+#endif
 // single steps in the harness process itself: LeakSanitizer checks at process exit that no closure / packaged_task /
 // result object handed to the tasking system was left behind
 static void run_case(const Case &c, pbt::Ctx &ctx)
